@@ -2016,7 +2016,9 @@ class DFA(fa.FA):
             transitions[state] = current_transitions
 
         if not must_be_suffix:
-            end_state = len(transitions)
+            # Trie nodes behind a symbol outside of input_symbols are never
+            # visited above, so len(transitions) may be a label already in use
+            end_state = len(labels)
             transitions[end_state] = {symbol: end_state for symbol in input_symbols}
             for state in final_states:
                 transitions[state] = {symbol: end_state for symbol in input_symbols}
